@@ -269,4 +269,7 @@ type Path struct {
 	Panic *ssa.Panic
 	Cut   *ssa.BasicBlock // non-nil: exploration stopped at a non-deterministic loop re-entry
 	Stop  ssa.Instruction // non-nil: stopped at a requested instruction
+	// Loop: the path returned to a loop header whose state had already been
+	// generalised (the path stands for "and so on for further iterations").
+	Loop *ssa.BasicBlock
 }
